@@ -549,6 +549,28 @@ class Env(object):
                             if len(others) == 1 and not reads_self:
                                 self._ifelse[d.id] = (iff.kids[0], b_.kids[1], self.init_of(d))
 
+        # T *a, *b; std::tie(a, b) = f(..);  -- a and b are the two components of what f returns
+        self._tie = {}
+        for n in fn.walk():
+            if n.kind != 'CXXOperatorCallExpr' or len(n.kids) != 3 or strip(n.kids[0]).ref != 'operator=':
+                continue
+            lhs = strip(n.kids[1])
+            if lhs.kind != 'CallExpr' or strip(lhs.kids[0]).ref != 'tie':
+                continue
+            tg = [strip(a) for a in lhs.kids[1:]]
+            if len(tg) != 2 or not all(a.kind == 'DeclRefExpr' and a.refid in self.decl for a in tg):
+                continue
+            for i_, a in enumerate(tg):
+                d_ = self.decl[a.refid]
+                writes = [x for x in fn.walk() if x.kind == 'DeclRefExpr' and x.refid == a.refid and x is not a and x.parent is not None and (
+                    (x.parent.kind in ('BinaryOperator', 'CompoundAssignOperator') and x.parent.op and x.parent.op.endswith('=')
+                     and x.parent.op not in ('==', '!=', '<=', '>=') and strip(x.parent.kids[0]) is x)
+                    or (x.parent.kind == 'UnaryOperator' and x.parent.op in ('++', '--', '&')))]
+                others = [x for x in fn.walk() if x.kind == 'CallExpr' and x is not lhs and strip(x.kids[0]).ref == 'tie'
+                          and any(strip(y).kind == 'DeclRefExpr' and strip(y).refid == a.refid for y in x.kids[1:])]
+                if d_.kind == 'VarDecl' and self.init_of(d_) is None and not writes and not others:
+                    self._tie[a.refid] = (n.kids[2], i_)
+
     def init_of(self, decl):
         for k in decl.kids:
             if k.kind not in ('Null',) and not k.kind.endswith('Attr'):
@@ -635,6 +657,11 @@ def term(n, env=None, _depth=0):
     k = n.kind
     T = lambda x: term(x, env, _depth)
     if k == 'DeclRefExpr':
+        if env is not None and n.refid in getattr(env, '_tie', {}) and _depth < 30:
+            rhs_, i_ = env._tie[n.refid]
+            got_ = pair_component(env, rhs_, i_, _depth + 1)
+            if got_ is not None:
+                return got_
         if env is not None and n.refid in getattr(env, '_ifelse', {}) and _depth < 30:
             c_, a_, b_ = env._ifelse[n.refid]
             t_ = mk_cond(term(c_, env, _depth + 1), term(a_, env, _depth + 1), term(b_, env, _depth + 1))
@@ -758,6 +785,9 @@ def term(n, env=None, _depth=0):
             inl = inline_record_builder(env, env.static_builders[name], args)
             if inl is not None:
                 return inl
+            inl = inline_callable(env, env.static_builders[name], args, _depth)        # `return {a, b, ..};`
+            if inl is not None:
+                return inl
         return ('call', name, args)
     if k == 'InitListExpr':
         return ('init', tuple(T(a) for a in n.kids))
@@ -828,6 +858,79 @@ def summarise_callable(fn_node, outer_lambdas=(), functions=None):
     if any(x[0] == 'idx' and x[1][0] == 'var' and x[1][1] in outer_lambdas for x in subterms(t)):
         return None     # forwards to another local lambda: keep the call visible
     return t
+
+
+def summarise_pair(fn_node, functions=None):
+    """a helper that returns a pair on every path ({a, b}, std::make_pair(a, b), pair<..>(a, b)) with side-effect-free
+    components: -> (first, second) as conditional terms over its parameters, or None"""
+    body = None
+    for k in fn_node.kids:
+        if k.kind == 'CompoundStmt':
+            body = k
+    if body is None:
+        return None
+    env = Env(fn_node)
+    if functions:
+        env.functions = {k_: v_ for k_, v_ in functions.items() if v_ is not fn_node}
+
+    def as_pair(t):
+        while t[0] == 'ctor' and len(t[2]) == 1 and t[2][0][0] in ('ctor', 'init', 'call'):
+            t = t[2][0]
+        if t[0] == 'ctor' and len(t[2]) == 2:
+            return t[2]
+        if t[0] == 'init' and len(t[1]) == 2:
+            return t[1]
+        if t[0] == 'call' and str(t[1]).split('::')[-1] == 'make_pair' and len(t[2]) == 2:
+            return t[2]
+        return None
+
+    def block(stmts):
+        stmts = list(stmts)
+        while stmts:
+            s_ = stmts.pop(0)
+            if s_.kind == 'CompoundStmt':
+                stmts = list(s_.kids) + stmts
+            elif s_.kind == 'ReturnStmt':
+                pr = as_pair(term(s_.kids[0], env)) if s_.kids else None
+                if pr is None or not all(_pure(x) for x in pr):
+                    return None
+                return tuple(pr)
+            elif s_.kind == 'IfStmt':
+                c = term(s_.kids[0], env)
+                a = block([s_.kids[1]] + stmts)
+                b = block(([s_.kids[2]] if len(s_.kids) > 2 else []) + stmts)
+                if a is None or b is None or not _pure(c):
+                    return None
+                return (mk_cond(c, a[0], b[0]), mk_cond(c, a[1], b[1]))
+            elif s_.kind in ('DeclStmt', 'NullStmt'):
+                for d in s_.find('VarDecl'):
+                    if env.init_of(d) is not None and not env.inlinable(d):
+                        return None
+            else:
+                return None
+        return None
+    return block(body.kids)
+
+
+def pair_component(env, rhs_node, i, depth):
+    """component i of the pair the expression `rhs_node` produces: through a pair-returning helper of the header, else
+    .first / .second of the value"""
+    r = strip(rhs_node)
+    if r.kind == 'CallExpr':
+        name = strip(r.kids[0]).ref
+        fn_node = getattr(env, 'functions', {}).get(name)
+        if fn_node is not None:
+            cache = env.__dict__.setdefault('_pair_summaries', {})
+            key = fn_node.id or id(fn_node)
+            if key not in cache:
+                cache[key] = summarise_pair(fn_node, getattr(env, 'functions', None))
+            body = cache[key]
+            params = [p.name for p in fn_node.kids if p.kind == 'ParmVarDecl']
+            if body is not None and len(params) == len(r.kids) - 1:
+                args = [term(a, env, depth) for a in r.kids[1:]]
+                return subst(body[i], {('var', p): a for p, a in zip(params, args)})
+            return None
+    return None
 
 
 def summarise_record_builder(fn_node, record_name, fields):
